@@ -25,6 +25,7 @@ AgentSet scenarios (C03): see `asetLine`.  Besides the methods `AgentSet` define
   isetop or|and|sub|xor s <other>        a |= b, …                              (in place)
   cmp le|lt|ge|gt|eq|ne s t | disjoint s <other> | pop s | clear s | index s a [start [stop]] | count s a | reversed s
   <other> = s:<k> | l:<ids> | x          (x: not iterable → TypeError; glue answered by the driver)
+  kill a                                 agent.remove() and the program drops its reference: the agent dies
 -/
 open Mesa Mesa.Agents
 
@@ -266,7 +267,7 @@ def fmtOptInt : Option Int → String
 open Mesa.ASet in
 /-- right-hand operand of a set operation: `s:<k>` another set, `l:<ids>` a plain iterable of agents,
     `x` something that is not iterable (`some none`) -/
-def parseOther (nsets npop : Nat) (s : String) : Option (Option Other) :=
+def parseOther (nsets npop : Nat) (s : String) (dead : List Nat := []) : Option (Option Other) :=
   match s.splitOn ":" with
   | ["x"] => some none
   | ["s", k] => do
@@ -274,14 +275,15 @@ def parseOther (nsets npop : Nat) (s : String) : Option (Option Other) :=
     if k < nsets then pure (some (.set k)) else none
   | ["l", ids] => do
     let ids ← parseNats ids
-    if ids.all (· < npop) then pure (some (.list ids)) else none
+    if ids.all (fun i => i < npop && !dead.contains i) then pure (some (.list ids)) else none
   | _ => none
 
 open Mesa.ASet in
 def dumpStore (st : Store) : String :=
   let ss := "|".intercalate (st.sets.zipIdx.map fun (l, k) => s!"S{k}={joinNat "," l}")
   let ags := " ".intercalate (st.pop.map fun a =>
-    s!"{a.id}:{fmtOptInt (a.attr 0)}/{fmtOptInt (a.attr 1)}/{fmtOptInt (a.attr 2)}")
+    if st.dead.contains a.id then s!"{a.id}:dead"
+    else s!"{a.id}:{fmtOptInt (a.attr 0)}/{fmtOptInt (a.attr 1)}/{fmtOptInt (a.attr 2)}")
   s!"{ss} || {ags}"
 
 open Mesa.ASet in
@@ -307,7 +309,7 @@ def asetLine (st : Store) (ws : List String) : Store × String :=
   | "mk" :: ids =>
     match ids.mapM (·.toNat?) with
     | some ids =>
-      if ids.all (· < npop) then let (st', k) := mk st ids; (st', okS st' s!"set={k}") else bad
+      if ids.all (fun i => i < npop && !st.dead.contains i) then let (st', k) := mk st ids; (st', okS st' s!"set={k}") else bad
     | none => bad
   | ["select", s, pred, ty, am, inpl] =>
     match s.toNat?, parsePred pred, (if ty = "-" then some none else ty.toNat?.map some), parseBool inpl with
@@ -434,7 +436,7 @@ def asetLine (st : Store) (ws : List String) : Store × String :=
       match opP, s.toNat? with
       | some op, some s =>
         if s < nsets then
-          match parseOther nsets npop o with
+          match parseOther nsets npop o st.dead with
           | some none => (st, "err Type")          -- a non-iterable operand: TypeError, nothing changes
           | some (some o) =>
             if op = .rsub && (match o with | .set _ => true | .list _ => false) then bad
@@ -447,7 +449,7 @@ def asetLine (st : Store) (ws : List String) : Store × String :=
       -- `index s a start` (stop = None)
       match op.toNat?, s.toNat?, o.toInt? with
       | some s, some a, some start =>
-        if s < nsets && a < npop then
+        if s < nsets && a < npop && !st.dead.contains a then
           match index st s a start none with
           | .ok i => (st, okS st s!"index={i}")
           | .error e => (st, fmtErr e)
@@ -457,7 +459,7 @@ def asetLine (st : Store) (ws : List String) : Store × String :=
   | ["index", s, a, start, stop] =>
     match s.toNat?, a.toNat?, start.toInt?, stop.toInt? with
     | some s, some a, some start, some stop =>
-      if s < nsets && a < npop then
+      if s < nsets && a < npop && !st.dead.contains a then
         match index st s a start (some stop) with
         | .ok i => (st, okS st s!"index={i}")
         | .error e => (st, fmtErr e)
@@ -467,11 +469,17 @@ def asetLine (st : Store) (ws : List String) : Store × String :=
     match s.toNat? with
     | some s =>
       if s < nsets then
-        match parseOther nsets npop o with
+        match parseOther nsets npop o st.dead with
         | some none => (st, "err Type")
         | some (some o) => (st, okS st s!"disjoint={if isdisjoint st s o then 1 else 0}")
         | none => bad
       else bad
+    | none => bad
+  | ["kill", a] =>
+    -- the agent is removed from the model and the program forgets it; an agent the program no longer has
+    -- cannot be named again (bad-op)
+    match a.toNat? with
+    | some a => if a < npop && !st.dead.contains a then let st' := kill st a; (st', okS st' "killed") else bad
     | none => bad
   | ["pop", s] =>
     match s.toNat? with
@@ -493,7 +501,7 @@ def asetLine (st : Store) (ws : List String) : Store × String :=
   | [op, s, a] =>
     match s.toNat?, a.toNat? with
     | some s, some a =>
-      if s < nsets && a < npop then
+      if s < nsets && a < npop && !st.dead.contains a then
         if op = "add" then let st' := add st s a; (st', okS st' "added")
         else if op = "discard" then let st' := discard st s a; (st', okS st' "discarded")
         else if op = "remove" then
